@@ -829,6 +829,12 @@ def c18(report):
         return [dict(container=c) for c in ("ndarray", "series1", "list")]
     jobs += cross_jobs(report.tier, report.seed + 1, variants1, "exact", ops, only=lambda c: c[1] is not None or c[0].startswith("lin-"),
                        dims=1, caller_check=True, tag="-c18d1", sims=False)
+    # linear policies that standardise the contexts (scale=True): the query matrix is shared by the per-arm models
+    def scaled(lp, np_, i):
+        return [dict(container=c, lin_scale=True) for c in ("ndarray", "list", "pandas", "int")]
+    jobs += cross_jobs(report.tier, report.seed + 2, scaled, "close", {"fit", "partial_fit", "predict", "predict_expectations"},
+                       only=lambda c: c[0].startswith("lin-") and c[1] in (None, "radius", "clusters"), caller_check=True,
+                       tag="-c18scaled", sims=report.tier == "thorough")
     ecf.run_jobs(report, jobs, by_clause("cross.", "caller.", "call.exception", "state."))
     # Series orientation: every valid case of Orient.tla on real bandits
     result = tlc.run("Orient", dict(MaxLen=3), invariants=["Inv_C18_Unambiguous"], view=None, constraint=None, workers=1, timeout=300)
@@ -915,6 +921,20 @@ def _caller_objects(report):
                 report.findings.append({"clause": "caller.modified", "op": "construct", "engine": "caller", "path": [], "label": {},
                                         "detail": "constructing / training %s with %s changed the caller's arms list or parameter "
                                                   "objects: %r %r" % (lp, npol, arms, params), "binding": {}})
+            # arm changes on the bandit are the bandit's own business too
+            try:
+                mab.add_arm(7)
+                mab.partial_fit(*(([7, 2], [1, 0]) + ((ctx[:2],) if npol is not None else ())))
+                mab.remove_arm(1)
+            except Exception as error:  # noqa
+                report.findings.append({"clause": "call.exception", "op": "add_arm", "engine": "caller", "path": [], "label": {},
+                                        "detail": "add_arm / partial_fit / remove_arm raised %s: %s (%s, %s)"
+                                                  % (type(error).__name__, error, lp, npol), "binding": {}})
+            if pickle.dumps((arms, params)) != snap:
+                report.findings.append({"clause": "caller.modified", "op": "add_arm", "engine": "caller", "path": [], "label": {},
+                                        "detail": "add_arm / partial_fit / remove_arm on a bandit built with %s and %s changed the "
+                                                  "caller's arms list or parameter objects: %r %r" % (lp, npol, arms, params),
+                                        "binding": {}})
             arms.append(99)
             if 99 in mab.arms or 99 in mab._imp.arms:
                 report.findings.append({"clause": "caller.arms_aliased", "op": "construct", "engine": "caller", "path": [], "label": {},
@@ -936,6 +956,12 @@ def c20(report):
     row_ok = lambda c: c[1] in (None, "radius", "lsh") and c[0] != "random"
     jobs += cross_jobs(report.tier, report.seed + 1, perm, "close", {"fit", "partial_fit", "predict_expectations"}, only=row_ok,
                        tag="-roworder")
+    # the same, with the data written as plain Python lists that mix ints and floats (whole numbers as ints)
+    def perm_mixed(lp, np_, i):
+        return [dict(perm_seed=None, container="mixed", runit=0.5), dict(perm_seed=3 + i, container="mixed", runit=0.5),
+                dict(perm_seed=70 + i, container="mixed", runit=0.5)]
+    jobs += cross_jobs(report.tier, report.seed + 2, perm_mixed, "close", {"fit", "partial_fit", "predict_expectations"},
+                       only=lambda c: row_ok(c) and c[0] != "ts", tag="-rowmixed", sims=report.tier == "thorough")
     def shift(lp, np_, i):
         return [dict(), dict(shift=2), dict(shift=-1)]
     jobs += cross_jobs(report.tier, report.seed, shift, "law", {"fit", "partial_fit", "predict_expectations"},
@@ -1001,7 +1027,8 @@ def replay(prop, path):
                                      backend=b["backend"], data_seed=b["data_seed"], dims=b["dims"], bin_name=b["bin"],
                                      epsilon=b["epsilon"], container=b["container"], perm_seed=b.get("perm_seed"),
                                      shift=b.get("shift", 0), scale=b.get("scale", 1), preconv=b.get("preconv"),
-                                     addarm_bin=b.get("addarm_bin"), binary_rewards=b.get("binary_rewards", False))
+                                     addarm_bin=b.get("addarm_bin"), binary_rewards=b.get("binary_rewards", False),
+                                     lin_scale=b.get("lin_scale", False), runit=b.get("runit", 1))
         rep = cf.Replay(binding, feat=finding.get("consts", {}).get("FeatSets") or finding.get("consts", {}).get("Feat", {}))
         if finding.get("path_mode"):
             rep.run_paths(finding["trace"])
